@@ -69,6 +69,11 @@ std::string sampleWithUnknownType(Rng& rng, std::string* desc = nullptr);
 // written by other tools have them (vertex maps are not sorted there).  Returns the number of partitions changed.
 int permutePartitionVertexMaps(NifFile& nif, Rng& rng);
 
+// Turns the NiTriShape `shape` of an OB / FO3 / SK model into a NiTriStrips that encodes exactly the same oriented triangles, one strip per
+// triangle, written in one of three ways: a b c | a a c b (a leading degenerate: the real triangle sits at an odd strip position) | a b c c.
+// Returns the new shape (nullptr when `shape` is not a NiTriShape with data).
+NiShape* toStripsSameTriangles(NifFile& nif, NiShape* shape, Rng& rng);
+
 // attaches a NiTexturingProperty whose slots (a seeded subset of the ten, never empty) name fresh NiSourceTexture blocks; OB / FO3 models
 void addTexturingProperty(NifFile& nif, NiShape* shape, Rng& rng, const std::vector<std::string>& paths);
 std::string applyRandomEdits(NifFile& nif, Rng& rng, int n);
